@@ -265,6 +265,8 @@ type S struct {
 	Required                                 []string
 	HasRequired                              bool
 	Ref                                      *S
+	// RefMissing: "$ref" to a definition that does not exist (import must fail)
+	RefMissing                               bool
 	AllOf, AnyOf, OneOf                      []*S
 	HasAllOf, HasAnyOf, HasOneOf             bool
 	Not, If, Then, Else                      *S
@@ -428,6 +430,8 @@ func (w *jsonWriter) write(b *strings.Builder, s *S, root bool) {
 	// phase 2
 	if s.Ref != nil {
 		add("$ref", func(b *strings.Builder) { b.WriteString(strconv.Quote("#/$defs/" + w.refName(s.Ref))) })
+	} else if s.RefMissing {
+		add("$ref", func(b *strings.Builder) { b.WriteString(strconv.Quote("#/$defs/missing")) })
 	}
 	if s.HasAllOf {
 		list("allOf", s.AllOf)
@@ -526,8 +530,49 @@ func (t *patTable) id(p string) int {
 	return len(t.list) - 1
 }
 
-// Tok renders the schema in the token format of the driver.
+// Tok renders the schema in the token format of the driver, with named
+// references: the root, then the table of definitions (`defs [ .. ]`) in an
+// order in which every definition refers to later ones only.  The model
+// (Schema/Refs.v) checks the table and does the inlining.
 func (s *S) Tok(b *strings.Builder, t *patTable) {
+	order := defsOrder(s)
+	idx := map[*S]int{}
+	for i, d := range order {
+		idx[d] = i
+	}
+	s.tok(b, t, idx)
+	if len(order) > 0 {
+		b.WriteString(" defs [")
+		for _, d := range order {
+			b.WriteByte(' ')
+			d.tok(b, t, idx)
+		}
+		b.WriteString(" ]")
+	}
+}
+
+// defsOrder lists the $ref targets reachable from root, reverse DFS post-order.
+func defsOrder(root *S) []*S {
+	var post []*S
+	seen := map[*S]bool{}
+	var visit func(s *S)
+	visit = func(s *S) {
+		s.walkNoRef(func(x *S) {
+			if x.Ref != nil && !seen[x.Ref] {
+				seen[x.Ref] = true
+				visit(x.Ref)
+				post = append(post, x.Ref)
+			}
+		})
+	}
+	visit(root)
+	for i, j := 0, len(post)-1; i < j; i, j = i+1, j-1 {
+		post[i], post[j] = post[j], post[i]
+	}
+	return post
+}
+
+func (s *S) tok(b *strings.Builder, t *patTable, idx map[*S]int) {
 	if s.IsBool {
 		if s.B {
 			b.WriteString("T")
@@ -540,14 +585,14 @@ func (s *S) Tok(b *strings.Builder, t *patTable) {
 		b.WriteString(" " + k + " [")
 		for _, x := range l {
 			b.WriteByte(' ')
-			x.Tok(b, t)
+			x.tok(b, t, idx)
 		}
 		b.WriteString(" ]")
 	}
 	sub := func(k string, x *S) {
 		if x != nil {
 			b.WriteString(" " + k + " ")
-			x.Tok(b, t)
+			x.tok(b, t, idx)
 		}
 	}
 	num := func(k string, p *int) {
@@ -612,7 +657,11 @@ func (s *S) Tok(b *strings.Builder, t *patTable) {
 		}
 		b.WriteString(" ]")
 	}
-	sub("ref", s.Ref)
+	if s.Ref != nil {
+		b.WriteString(" ref @" + strconv.Itoa(idx[s.Ref]))
+	} else if s.RefMissing {
+		b.WriteString(" ref @" + strconv.Itoa(len(idx)+7))
+	}
 	if s.HasAllOf {
 		list("allOf", s.AllOf)
 	}
@@ -630,7 +679,7 @@ func (s *S) Tok(b *strings.Builder, t *patTable) {
 		b.WriteString(" props {")
 		for _, p := range s.Props {
 			b.WriteString(" " + strTok([]rune(p.Name)) + " ")
-			p.S.Tok(b, t)
+			p.S.tok(b, t, idx)
 		}
 		b.WriteString(" }")
 	}
@@ -638,7 +687,7 @@ func (s *S) Tok(b *strings.Builder, t *patTable) {
 		b.WriteString(" pprops {")
 		for _, p := range s.PProps {
 			b.WriteString(" p" + strconv.Itoa(t.id(p.Name)) + " ")
-			p.S.Tok(b, t)
+			p.S.tok(b, t, idx)
 		}
 		b.WriteString(" }")
 	}
@@ -671,5 +720,27 @@ func (s *S) walk(f func(*S)) {
 	}
 	for _, p := range s.PProps {
 		p.S.walk(f)
+	}
+}
+
+// walkNoRef visits s and every subschema without following $ref.
+func (s *S) walkNoRef(f func(*S)) {
+	if s == nil {
+		return
+	}
+	f(s)
+	for _, x := range []*S{s.Not, s.If, s.Then, s.Else, s.PNames, s.Contains, s.Addl, s.Items} {
+		x.walkNoRef(f)
+	}
+	for _, l := range [][]*S{s.AllOf, s.AnyOf, s.OneOf, s.Prefix} {
+		for _, x := range l {
+			x.walkNoRef(f)
+		}
+	}
+	for _, p := range s.Props {
+		p.S.walkNoRef(f)
+	}
+	for _, p := range s.PProps {
+		p.S.walkNoRef(f)
 	}
 }
